@@ -161,6 +161,7 @@ func (l *Loader) resolveIncludes(path string, entry cacheEntry, state *loadState
 	journal := entry.journal
 
 	result := NewResolvedJournal(journal)
+	result.PrimaryPath = path
 	state.ancestors[path] = true
 	state.loaded[path] = true
 	defer delete(state.ancestors, path)
